@@ -674,6 +674,39 @@ def k11(F, R):
 
 
 
+CLAMP_BY_SPEC = ("array_update_var_inv_std_draw", "array_update_var_inv_std_draw_grad", "array_update_var_inv_std_grad", "array_update_variance")
+
+
+def k12(F, R):
+    R.rule("C17-K12", "the formulas are applied as they stand: apart from the scale-update kernels, whose specification clamps the variance, no method of the CPU "
+                      "backend and no kernel of math::util applies min / max / clamp / abs / copysign to an f64 - `x.max(tiny)` silently replaces a NaN (f64::max "
+                      "returns the other operand), `exp(-d).min(1.0)` changes the result for negative steps; either way the backend no longer agrees with scalar "
+                      "arithmetic on special values")
+    CL = ("min", "max", "clamp", "abs", "copysign", "signum", "rem_euclid")
+    n = 0
+    hits = []
+    for b in sorted(F.hir_bodies(), key=lambda x: x.path):
+        if not b.hir:
+            continue
+        sa = b.parent.get("self_adt") or ""
+        in_cpu = (sa.startswith("math::cpu_math::CpuMath") and b.parent.get("trait") and path_ends(b.parent["trait"], "math::Math")) or b.path.startswith("math::util::")
+        if not in_cpu or ".tests" in b.path or "::tests::" in b.path or b.kind == "closure":
+            continue
+        if b.fn_name in CLAMP_BY_SPEC:
+            continue
+        n += 1
+        for x in hir_walk(b.hir["value"]):
+            if x.get("k") == "MethodCall" and x.get("method") in CL and ("f64" in str(x.get("callee")) or str(x.get("recv_ty")) in ("f64", "&f64")):
+                hits.append((b, x))
+    for (b, x) in hits:
+        R.bad("C17-K12", "%s:%s" % (b.path, x["method"]), "%s @%s" % (b.path, loc(x["span"])), "`%s` applied to an f64 in a formula kernel: the result differs from the scalar formula "
+              "for NaN / negative / out-of-range operands" % x["method"])
+    if not hits:
+        R.ok("C17-K12", "scan", "math::cpu_math, math::util", "%d functions, no min / max / clamp / abs on an f64 outside the %d scale-update kernels" % (n, len(CLAMP_BY_SPEC)))
+    if n < 20:
+        R.missing("C17-K12", "CPU backend methods (found %d)" % n)
+
+
 def run(F, R, config=None):
     R.rule("C17-K1", "each slice operand of a kernel is split exactly once by S::as_(mut_)simd_f64s and its head exactly once by pulp::as_arrays(_mut)::<4>")
     R.rule("C17-K2", "exactly three element loops (unrolled body, SIMD tail, scalar tail); each zips the corresponding piece of every operand exactly once")
@@ -691,6 +724,7 @@ def run(F, R, config=None):
     stateless_backend(F, R)
     k10(F, R)
     k11(F, R)
+    k12(F, R)
     R.floor("C17-K1", 25)
     R.floor("C17-K2", 40)
     R.floor("C17-K3", 40)
